@@ -367,4 +367,5 @@ func main() {
 	writeIfChanged(filepath.Join(outDir, "Validation.lean"), genValidation(repoRoot)) // C05 (extract/validation.go): never exits
 	writeIfChanged(filepath.Join(outDir, "Proxies.lean"), genProxies(repoRoot))       // C18 (extract/proxies.go): never exits
 	writeIfChanged(filepath.Join(outDir, "CtxHelpers.lean"), genCtxHelpers(repoRoot)) // C19 (extract/ctxhelpers.go): never exits
+	writeIfChanged(filepath.Join(outDir, "RateLimit.lean"), genRateLimit(repoRoot))   // C16 (extract/ratelimit.go): never exits
 }
